@@ -30,6 +30,23 @@ def c04b_int_not_double(case, detail):
     exposition writes float(value): the value changes, or floatToGoString raises OverflowError."""
     import re
     doc = case.get('doc', '') if isinstance(case, dict) else ''
+
+    def lossy(v):
+        if isinstance(v, bool) or not isinstance(v, int):
+            return False
+        try:
+            return float(v) != v
+        except OverflowError:
+            return True
+    try:        # exact: what the parser itself read (the token may follow any character the parser skips)
+        from prometheus_client.openmetrics.parser import text_string_to_metric_families
+        for f in text_string_to_metric_families(doc):
+            for smp in f.samples:
+                if lossy(smp.value) or (smp.exemplar is not None and lossy(smp.exemplar.value)):
+                    return True
+        return False
+    except Exception:
+        pass
     for tok in re.findall(r'(?<![\w.+-])[-+]?[0-9]{16,}(?![\w.])', doc):
         try:
             if float(int(tok)) != int(tok):
@@ -145,5 +162,33 @@ def c04b_same_instant_two_classes(case, detail):
                     if float(a.timestamp) == float(b.timestamp):
                         return True
                 except OverflowError:
+                    pass
+    return False
+
+
+def c04b_mixed_class_timestamps_rounded(case, detail):
+    """C04 second direction: a family of the accepted document holds timestamps of both classes - a float (written 1e0,
+    .5, 12. ...) and a Timestamp (digits.digits) - that are EQUAL as doubles but differ exactly (by less than the
+    double's resolution, e.g. -1284665833. and -1284665833.000000001).  The parser compares mixed classes through
+    float(), so an order violation of that size is not seen; exposed, both are written in Timestamp form and the
+    exposition is rejected ('Timestamps went backwards within a group')."""
+    if not isinstance(case, dict) or 'reparse-error' not in str(detail):
+        return False
+    try:
+        from fractions import Fraction
+        from prometheus_client.openmetrics.parser import text_string_to_metric_families
+        from prometheus_client.samples import Timestamp
+        fams = list(text_string_to_metric_families(case.get('doc', '')))
+    except Exception:
+        return False
+    for f in fams:
+        fl = [s.timestamp for s in f.samples if s.timestamp is not None and not isinstance(s.timestamp, Timestamp)]
+        ts = [s.timestamp for s in f.samples if isinstance(s.timestamp, Timestamp)]
+        for a in fl:
+            for b in ts:
+                try:
+                    if float(b) == float(a) and Fraction(b.sec) + Fraction(b.nsec, 10 ** 9) != Fraction(float(a)):
+                        return True
+                except (OverflowError, ValueError):
                     pass
     return False
